@@ -37,7 +37,12 @@ type LayoutGen struct {
 
 func (g *LayoutGen) c(slot string) string {
 	g.cid++
-	return fmt.Sprintf("c%03d %s", g.cid, slot)
+	t := fmt.Sprintf("c%03d %s", g.cid, slot)
+	if g.R != nil && g.R.Intn(6) == 0 {
+		// text that is special to templating / regexp replacement must survive literally
+		t += []string{" costs $12.50", " see $HOME/bin", " ${name} $1", " 100% \\1 \\n", " $$ $& $0"}[g.R.Intn(5)]
+	}
+	return t
 }
 
 func (g *LayoutGen) chance(p float64) bool { return g.R.Float64() < p }
